@@ -475,7 +475,14 @@ pub struct EvalState<'a> {
     // Used to check for circular variable references
     // Vec - likely to be few vars, and need stack behaviour
     checked_vars: Vec<String>,
+    // Current nesting depth of the recursive-descent parser
+    depth: usize,
 }
+
+/// Maximum nesting (parentheses, unary minus, function calls) of an expression.
+/// The parser is recursive; without a bound a long run of '(' or '-' exhausts
+/// the stack and aborts the process.
+const MAX_EXPR_DEPTH: usize = 200;
 
 impl<'a> EvalState<'a> {
     fn new(
@@ -488,6 +495,7 @@ impl<'a> EvalState<'a> {
             index: 0,
             context,
             checked_vars: Vec::from(checked_vars),
+            depth: 0,
         }
     }
 
@@ -742,6 +750,18 @@ fn factor(eval_state: &mut EvalState) -> Result<ExprValue> {
 }
 
 fn primary(eval_state: &mut EvalState) -> Result<ExprValue> {
+    eval_state.depth += 1;
+    if eval_state.depth > MAX_EXPR_DEPTH {
+        return Err(SvgdxError::ParseError(format!(
+            "Expression nested deeper than {MAX_EXPR_DEPTH} levels"
+        )));
+    }
+    let result = primary_inner(eval_state);
+    eval_state.depth -= 1;
+    result
+}
+
+fn primary_inner(eval_state: &mut EvalState) -> Result<ExprValue> {
     match eval_state.next() {
         Some(Token::Number(x)) => Ok(ExprValue::Number(x)),
         Some(Token::String(s)) => Ok(ExprValue::String(s)),
